@@ -38,7 +38,15 @@ pub struct Sc { pub mode: Mode, pub pre_datagrams: usize, pub live_datagrams: us
     /// a datagram every 7 ms from BEFORE the listener call on (the hand-over happens under traffic)
     pub pre_flood: bool,
     /// the callback of the FIRST network event (and of signal 0) lingers this many ms (longer than any internal wait of the listener)
-    pub long_cb_ms: u64 }
+    pub long_cb_ms: u64,
+    /// ONE sender keeps sending numbered datagrams (every ~150 us) from before the listener call until the end:
+    /// the numbers handed to the callback / offered by the queue are strictly increasing
+    pub numbered_stream: bool,
+    /// an EMPTY datagram is sent after pre-datagram #1 (before the listener call) and after the first live one
+    pub with_empties: bool,
+    /// a FramedTcp peer writes a 256 KiB burst of tiny frames right before the listener call (the thread that reads
+    /// the sockets is in a long read loop at the moment of the hand-over)
+    pub pre_tcp_stream: bool }
 
 struct Shared {
     in_cb: AtomicBool,
@@ -100,7 +108,7 @@ pub fn run_scenario(sc: &Sc, out: &mut Out) -> Option<String> {
     let sock = UdpSocket::bind("127.0.0.1:0").unwrap();
     *sh.inject.lock().unwrap() = Some((UdpSocket::bind("127.0.0.1:0").unwrap(), addr));
     // activity before the listener call: numbered datagrams, paced so that they are certainly cached
-    for i in 0..sc.pre_datagrams { sock.send_to(&(i as u64).to_le_bytes(), addr).unwrap(); std::thread::sleep(Duration::from_micros(300)); }
+    for i in 0..sc.pre_datagrams { sock.send_to(&(i as u64).to_le_bytes(), addr).unwrap(); if sc.with_empties && i == 1 { sock.send_to(&[], addr).unwrap(); } std::thread::sleep(Duration::from_micros(300)); }
     if sc.pre_session {
         use std::io::Write;
         let (_fl, faddr) = handler.network().listen(Transport::FramedTcp, "127.0.0.1:0").unwrap();
@@ -114,6 +122,22 @@ pub fn run_scenario(sc: &Sc, out: &mut Out) -> Option<String> {
     if sc.pre_datagrams > 0 || sc.pre_session { std::thread::sleep(Duration::from_millis(70)); } // > one SAMPLING_TIMEOUT
     let bg_stop = Arc::new(AtomicBool::new(false));
     let mut bg = vec![];
+    if sc.numbered_stream {
+        // numbers from 100_000 on, one socket, one thread
+        let (bg_stop, addr) = (bg_stop.clone(), addr);
+        bg.push(std::thread::spawn(move || { let s = UdpSocket::bind("127.0.0.1:0").unwrap(); let mut n = 100_000u64; while !bg_stop.load(Ordering::SeqCst) && n < 390_000 { let _ = s.send_to(&n.to_le_bytes(), addr); n += 1; std::thread::sleep(Duration::from_micros(150)); } }));
+        std::thread::sleep(Duration::from_millis(250));
+    }
+    if sc.pre_tcp_stream {
+        use std::io::Write;
+        if let Ok((_fl, faddr)) = handler.network().listen(Transport::FramedTcp, "127.0.0.1:0") {
+            let bg_stop = bg_stop.clone();
+            // a FINITE burst (256 KiB = 131072 two-byte frames): a stream
+            // that never pauses keeps a receive() call from ever returning, which is known finding K2
+            bg.push(std::thread::spawn(move || { if let Ok(mut c) = std::net::TcpStream::connect(faddr) { let _ = c.set_write_timeout(Some(Duration::from_millis(3000))); let chunk: Vec<u8> = (0..4096).flat_map(|_| [1u8, 7u8]).collect(); for _ in 0..32 { if bg_stop.load(Ordering::SeqCst) || c.write_all(&chunk).is_err() { break; } } while !bg_stop.load(Ordering::SeqCst) { std::thread::sleep(Duration::from_millis(5)); } } }));
+            std::thread::sleep(Duration::from_millis(15));
+        }
+    }
     if sc.pre_flood {
         let (bg_stop, addr) = (bg_stop.clone(), addr);
         bg.push(std::thread::spawn(move || { let s = UdpSocket::bind("127.0.0.1:0").unwrap(); while !bg_stop.load(Ordering::SeqCst) { let _ = s.send_to(&900_004u64.to_le_bytes(), addr); std::thread::sleep(Duration::from_millis(7)); } }));
@@ -160,7 +184,7 @@ pub fn run_scenario(sc: &Sc, out: &mut Out) -> Option<String> {
         }).unwrap() };
     // live activity
     std::thread::sleep(Duration::from_millis(15));
-    for i in 0..sc.live_datagrams { sock.send_to(&((sc.pre_datagrams + i) as u64).to_le_bytes(), addr).unwrap(); std::thread::sleep(Duration::from_micros(400)); }
+    for i in 0..sc.live_datagrams { sock.send_to(&((sc.pre_datagrams + i) as u64).to_le_bytes(), addr).unwrap(); if sc.with_empties && i == 0 { sock.send_to(&[], addr).unwrap(); } std::thread::sleep(Duration::from_micros(400)); }
     if sc.flood {
         let (bg_stop, addr) = (bg_stop.clone(), addr);
         bg.push(std::thread::spawn(move || { let s = UdpSocket::bind("127.0.0.1:0").unwrap(); while !bg_stop.load(Ordering::SeqCst) { let _ = s.send_to(&900_002u64.to_le_bytes(), addr); std::thread::sleep(Duration::from_millis(5)); } }));
@@ -199,6 +223,9 @@ pub fn run_scenario(sc: &Sc, out: &mut Out) -> Option<String> {
     // ---- implementation-level oracles ----------------------------------------------------------
     let name = format!("{:?} pre={} live={} signals={} stop={:?}{}", sc.mode, sc.pre_datagrams, sc.live_datagrams, sc.signals, sc.stop, format!("{}{}{}{}", if sc.inflight { " with the other thread queued on the callback lock" } else { "" }, if sc.live_session_stop { "; stop() from the callback of a message whose sender closed right behind it" } else { "" }, if sc.flood { "; a datagram keeps arriving every 5 ms also after the stop" } else { "" }, if sc.timer_churn { "; far timers are armed and cancelled every 10 ms also after the stop" } else { "" }) + if sc.pre_flood { "; a datagram every 7 ms from before the listener call on" } else { "" });
     if sh.overlaps.load(Ordering::SeqCst) > 0 { out.violation(&format!("[C05] the event callback was entered while another invocation was still running ({} overlaps) in {}", sh.overlaps.load(Ordering::SeqCst), name)); }
+    if sc.stop == StopAt::BeforeStart && sc.mode == Mode::Enqueue && sh.calls.load(Ordering::SeqCst) > 0 {
+        out.violation(&format!("[C09] stop() before enqueue(), yet {} events came out of the queue ({})", sh.calls.load(Ordering::SeqCst), name));
+    }
     if sc.mode != Mode::Enqueue {
         let after = sh.calls_after_stop.load(Ordering::SeqCst);
         if after > 0 && !matches!(sc.stop, StopAt::External(_)) { out.violation(&format!("[C09] the callback was invoked {} more time(s) after stop() had returned ({})", after, name)); }
@@ -216,7 +243,7 @@ pub fn run_scenario(sc: &Sc, out: &mut Out) -> Option<String> {
         let session: Vec<u64> = order.iter().cloned().filter(|p| (500_000..500_010).contains(p) || *p == 888_001 || *p == 888_002 || *p == 999_999).collect();
         let expected = vec![888_001u64, 500_000, 500_001, 500_002, 888_002];
         if !expected.starts_with(&session) || (!early && session != expected) {
-            out.violation(&format!("[C15] a FramedTcp client connected, sent three 8-byte messages and closed before the listener call; delivered for it (888001=Accepted, 888002=Disconnected, 999999=a message of another size): {:?}, expected [888001, 500000, 500001, 500002, 888002]{} ({:?})", session, if early { " or, the node having been stopped, a prefix of it" } else { "" }, sc.mode));
+            out.violation(&format!("[C15,C04] a FramedTcp client connected, sent three 8-byte messages and closed before the listener call; delivered for it (888001=Accepted, 888002=Disconnected, 999999=a message of another size): {:?}, expected [888001, 500000, 500001, 500002, 888002]{} ({:?})", session, if early { " or, the node having been stopped, a prefix of it" } else { "" }, sc.mode));
         }
     }
     if msgs.windows(2).any(|w| w[0] >= w[1]) { out.violation(&format!("[C15] network events delivered out of the order in which they happened: {:?} ({})", &msgs[..msgs.len().min(20)], name)); }
@@ -234,6 +261,26 @@ pub fn run_scenario(sc: &Sc, out: &mut Out) -> Option<String> {
         if first == 0 || first.saturating_sub(start_ns) > 1_000_000_000 {
             out.violation(&format!("[C15,C18] a datagram arrives every 7 ms from before the listener call on: the first event reached the callback {} after the call (cached and live events must be delivered whatever the traffic at the moment of the hand-over) ({})", if first == 0 { "never".to_string() } else { format!("{} ms", first.saturating_sub(start_ns) / 1_000_000) }, name));
         }
+    }
+    if sc.numbered_stream {
+        let stream: Vec<u64> = order.iter().cloned().filter(|p| (100_000..400_000).contains(p)).collect();
+        if let Some(w) = stream.windows(2).position(|w| w[0] >= w[1]) {
+            out.violation(&format!("[C15] one sender kept sending numbered datagrams from before the listener call on: they reached the callback out of order: ... {:?} ... at position {} of {} ({})", &stream[w.saturating_sub(2)..(w + 3).min(stream.len())], w, stream.len(), name));
+        }
+        out.add("numbered_stream_events", stream.len() as u64);
+    }
+    if sc.with_empties && matches!(sc.stop, StopAt::External(_)) {
+        // the numbered datagrams and the two empty ones (999999 = a message of another size), in the order they were sent
+        let seq: Vec<u64> = order.iter().cloned().filter(|p| *p < 400_000 || *p == 999_999).collect();
+        let mut expected: Vec<u64> = vec![];
+        for i in 0..sc.pre_datagrams as u64 { expected.push(i); if i == 1 { expected.push(999_999); } }
+        for i in 0..sc.live_datagrams as u64 { expected.push(sc.pre_datagrams as u64 + i); if i == 0 { expected.push(999_999); } }
+        if seq != expected { out.violation(&format!("[C15,C12] datagrams 0..{} and two EMPTY datagrams (one before the listener call, one after; shown as 999999) were sent in this order {:?}; delivered {:?} ({})", sc.pre_datagrams + sc.live_datagrams, expected, seq, name)); }
+    }
+    if sc.pre_tcp_stream && matches!(sc.stop, StopAt::External(_)) {
+        // the numbered datagrams of the OTHER peer all arrive although a stream keeps the reading thread busy at the hand-over
+        let want: Vec<u64> = (0..(sc.pre_datagrams + sc.live_datagrams) as u64).collect();
+        if msgs != want { out.violation(&format!("[C15] while the reading thread is busy with a 256 KiB burst of tiny FramedTcp frames across the listener call, {} numbered datagrams of another peer were sent ({} before the call, {} right after it): delivered {:?} ({})", want.len(), sc.pre_datagrams, sc.live_datagrams, &msgs[..msgs.len().min(20)], name)); }
     }
     // C06 at node level: signals sent by one thread through the same kind of call reach the callback
     // in the order they were sent (k % 3: 0 = send, 1 = send_with_priority, 2 = send_with_timer(2k ms))
@@ -366,41 +413,50 @@ pub fn run(a: &Args) {
     let mut r = Rng::new(a.seed);
     let mut scs: Vec<Sc> = vec![];
     for mode in [Mode::ForEach, Mode::ForEachAsync, Mode::Enqueue] {
-        scs.push(Sc { mode, pre_datagrams: 4, live_datagrams: 6, signals: 6, stop: StopAt::BeforeStart, cb_micros: 0, inflight: false, pre_session: false, live_session_stop: false, flood: false, timer_churn: false, pre_flood: false, long_cb_ms: 0 });
-        scs.push(Sc { mode, pre_datagrams: 0, live_datagrams: 0, signals: 0, stop: StopAt::BeforeStart, cb_micros: 0, inflight: false, pre_session: false, live_session_stop: false, flood: false, timer_churn: false, pre_flood: false, long_cb_ms: 0 });
+        scs.push(Sc { mode, pre_datagrams: 4, live_datagrams: 6, signals: 6, stop: StopAt::BeforeStart, cb_micros: 0, inflight: false, pre_session: false, live_session_stop: false, flood: false, timer_churn: false, pre_flood: false, long_cb_ms: 0, numbered_stream: false, with_empties: false, pre_tcp_stream: false });
+        scs.push(Sc { mode, pre_datagrams: 0, live_datagrams: 0, signals: 0, stop: StopAt::BeforeStart, cb_micros: 0, inflight: false, pre_session: false, live_session_stop: false, flood: false, timer_churn: false, pre_flood: false, long_cb_ms: 0, numbered_stream: false, with_empties: false, pre_tcp_stream: false });
         let max_idx = if a.thorough { 12 } else { 5 };
         for k in 0..max_idx {
-            scs.push(Sc { mode, pre_datagrams: 5, live_datagrams: 8, signals: 6, stop: StopAt::NetEvent(k), cb_micros: 200, inflight: false, pre_session: false, live_session_stop: false, flood: false, timer_churn: false, pre_flood: false, long_cb_ms: 0 });
-            scs.push(Sc { mode, pre_datagrams: 3, live_datagrams: 10, signals: 8, stop: StopAt::Signal(k), cb_micros: 300, inflight: false, pre_session: false, live_session_stop: false, flood: false, timer_churn: false, pre_flood: false, long_cb_ms: 0 });
+            scs.push(Sc { mode, pre_datagrams: 5, live_datagrams: 8, signals: 6, stop: StopAt::NetEvent(k), cb_micros: 200, inflight: false, pre_session: false, live_session_stop: false, flood: false, timer_churn: false, pre_flood: false, long_cb_ms: 0, numbered_stream: false, with_empties: false, pre_tcp_stream: false });
+            scs.push(Sc { mode, pre_datagrams: 3, live_datagrams: 10, signals: 8, stop: StopAt::Signal(k), cb_micros: 300, inflight: false, pre_session: false, live_session_stop: false, flood: false, timer_churn: false, pre_flood: false, long_cb_ms: 0, numbered_stream: false, with_empties: false, pre_tcp_stream: false });
         }
         for k in 0..(if a.thorough { 6 } else { 2 }) {
-            scs.push(Sc { mode, pre_datagrams: 2, live_datagrams: 6, signals: 6, stop: StopAt::Signal(2 + k), cb_micros: 100, inflight: true, pre_session: false, live_session_stop: false, flood: false, timer_churn: false, pre_flood: false, long_cb_ms: 0 });
-            scs.push(Sc { mode, pre_datagrams: 2, live_datagrams: 8, signals: 4, stop: StopAt::NetEvent(3 + k), cb_micros: 100, inflight: true, pre_session: false, live_session_stop: false, flood: false, timer_churn: false, pre_flood: false, long_cb_ms: 0 });
+            scs.push(Sc { mode, pre_datagrams: 2, live_datagrams: 6, signals: 6, stop: StopAt::Signal(2 + k), cb_micros: 100, inflight: true, pre_session: false, live_session_stop: false, flood: false, timer_churn: false, pre_flood: false, long_cb_ms: 0, numbered_stream: false, with_empties: false, pre_tcp_stream: false });
+            scs.push(Sc { mode, pre_datagrams: 2, live_datagrams: 8, signals: 4, stop: StopAt::NetEvent(3 + k), cb_micros: 100, inflight: true, pre_session: false, live_session_stop: false, flood: false, timer_churn: false, pre_flood: false, long_cb_ms: 0, numbered_stream: false, with_empties: false, pre_tcp_stream: false });
         }
-        scs.push(Sc { mode, pre_datagrams: 3, live_datagrams: 5, signals: 4, stop: StopAt::External(150), cb_micros: 0, inflight: false, pre_session: true, live_session_stop: false, flood: false, timer_churn: false, pre_flood: false, long_cb_ms: 0 });
-        scs.push(Sc { mode, pre_datagrams: 0, live_datagrams: 4, signals: 0, stop: StopAt::NetEvent(8), cb_micros: 100, inflight: false, pre_session: true, live_session_stop: false, flood: false, timer_churn: false, pre_flood: false, long_cb_ms: 0 });
-        scs.push(Sc { mode, pre_datagrams: 0, live_datagrams: 3, signals: 2, stop: StopAt::NetEvent(99), cb_micros: 0, inflight: false, pre_session: false, live_session_stop: true, flood: false, timer_churn: false, pre_flood: false, long_cb_ms: 0 });
-        scs.push(Sc { mode, pre_datagrams: 2, live_datagrams: 5, signals: 3, stop: StopAt::External(120), cb_micros: 100, inflight: false, pre_session: false, live_session_stop: false, flood: true, timer_churn: false, pre_flood: false, long_cb_ms: 0 });
-        scs.push(Sc { mode, pre_datagrams: 2, live_datagrams: 5, signals: 3, stop: StopAt::NetEvent(4), cb_micros: 100, inflight: false, pre_session: false, live_session_stop: false, flood: false, timer_churn: true, pre_flood: false, long_cb_ms: 0 });
-        scs.push(Sc { mode, pre_datagrams: 0, live_datagrams: 4, signals: 3, stop: StopAt::Signal(1), cb_micros: 0, inflight: false, pre_session: false, live_session_stop: false, flood: true, timer_churn: true, pre_flood: false, long_cb_ms: 0 });
+        scs.push(Sc { mode, pre_datagrams: 3, live_datagrams: 5, signals: 4, stop: StopAt::External(150), cb_micros: 0, inflight: false, pre_session: true, live_session_stop: false, flood: false, timer_churn: false, pre_flood: false, long_cb_ms: 0, numbered_stream: false, with_empties: false, pre_tcp_stream: false });
+        scs.push(Sc { mode, pre_datagrams: 0, live_datagrams: 4, signals: 0, stop: StopAt::NetEvent(8), cb_micros: 100, inflight: false, pre_session: true, live_session_stop: false, flood: false, timer_churn: false, pre_flood: false, long_cb_ms: 0, numbered_stream: false, with_empties: false, pre_tcp_stream: false });
+        scs.push(Sc { mode, pre_datagrams: 0, live_datagrams: 3, signals: 2, stop: StopAt::NetEvent(99), cb_micros: 0, inflight: false, pre_session: false, live_session_stop: true, flood: false, timer_churn: false, pre_flood: false, long_cb_ms: 0, numbered_stream: false, with_empties: false, pre_tcp_stream: false });
+        scs.push(Sc { mode, pre_datagrams: 2, live_datagrams: 5, signals: 3, stop: StopAt::External(120), cb_micros: 100, inflight: false, pre_session: false, live_session_stop: false, flood: true, timer_churn: false, pre_flood: false, long_cb_ms: 0, numbered_stream: false, with_empties: false, pre_tcp_stream: false });
+        scs.push(Sc { mode, pre_datagrams: 2, live_datagrams: 5, signals: 3, stop: StopAt::NetEvent(4), cb_micros: 100, inflight: false, pre_session: false, live_session_stop: false, flood: false, timer_churn: true, pre_flood: false, long_cb_ms: 0, numbered_stream: false, with_empties: false, pre_tcp_stream: false });
+        scs.push(Sc { mode, pre_datagrams: 0, live_datagrams: 4, signals: 3, stop: StopAt::Signal(1), cb_micros: 0, inflight: false, pre_session: false, live_session_stop: false, flood: true, timer_churn: true, pre_flood: false, long_cb_ms: 0, numbered_stream: false, with_empties: false, pre_tcp_stream: false });
         // a long live burst handled by a slow callback (hundreds of events out of single polls) while signals fire
-        scs.push(Sc { mode, pre_datagrams: 0, live_datagrams: 260, signals: 24, stop: StopAt::NetEvent(259), cb_micros: 250, inflight: false, pre_session: false, live_session_stop: false, flood: false, timer_churn: false, pre_flood: false, long_cb_ms: 0 });
-        scs.push(Sc { mode, pre_datagrams: 3, live_datagrams: 4, signals: 2, stop: StopAt::External(400), cb_micros: 0, inflight: false, pre_session: false, live_session_stop: false, flood: false, timer_churn: false, pre_flood: true, long_cb_ms: 0 });
+        scs.push(Sc { mode, pre_datagrams: 0, live_datagrams: 260, signals: 24, stop: StopAt::NetEvent(259), cb_micros: 250, inflight: false, pre_session: false, live_session_stop: false, flood: false, timer_churn: false, pre_flood: false, long_cb_ms: 0, numbered_stream: false, with_empties: false, pre_tcp_stream: false });
+        scs.push(Sc { mode, pre_datagrams: 3, live_datagrams: 4, signals: 2, stop: StopAt::External(400), cb_micros: 0, inflight: false, pre_session: false, live_session_stop: false, flood: false, timer_churn: false, pre_flood: true, long_cb_ms: 0, numbered_stream: false, with_empties: false, pre_tcp_stream: false });
         // more cached events than any fixed small capacity
-        scs.push(Sc { mode, pre_datagrams: if a.thorough { 3000 } else { 1100 }, live_datagrams: 5, signals: 2, stop: StopAt::External(700), cb_micros: 0, inflight: false, pre_session: false, live_session_stop: false, flood: false, timer_churn: false, pre_flood: false, long_cb_ms: 0 });
+        scs.push(Sc { mode, pre_datagrams: if a.thorough { 3000 } else { 1100 }, live_datagrams: 5, signals: 2, stop: StopAt::External(700), cb_micros: 0, inflight: false, pre_session: false, live_session_stop: false, flood: false, timer_churn: false, pre_flood: false, long_cb_ms: 0, numbered_stream: false, with_empties: false, pre_tcp_stream: false });
         // the callback is busy with slow network events while plain / priority / timed signals are pending
-        scs.push(Sc { mode, pre_datagrams: 4, live_datagrams: 6, signals: 18, stop: StopAt::External(500), cb_micros: 20_000, inflight: false, pre_session: false, live_session_stop: false, flood: false, timer_churn: false, pre_flood: false, long_cb_ms: 0 });
+        scs.push(Sc { mode, pre_datagrams: 4, live_datagrams: 6, signals: 18, stop: StopAt::External(500), cb_micros: 20_000, inflight: false, pre_session: false, live_session_stop: false, flood: false, timer_churn: false, pre_flood: false, long_cb_ms: 0, numbered_stream: false, with_empties: false, pre_tcp_stream: false });
         // one callback that lasts longer than any internal wait (130 ms) while events of the other kind are ready
-        scs.push(Sc { mode, pre_datagrams: 0, live_datagrams: 5, signals: 9, stop: StopAt::External(700), cb_micros: 0, inflight: false, pre_session: false, live_session_stop: false, flood: false, timer_churn: false, pre_flood: false, long_cb_ms: 130 });
-        scs.push(Sc { mode, pre_datagrams: 3, live_datagrams: 5, signals: 9, stop: StopAt::External(700), cb_micros: 100, inflight: false, pre_session: false, live_session_stop: false, flood: true, timer_churn: false, pre_flood: false, long_cb_ms: 130 });
+        scs.push(Sc { mode, pre_datagrams: 0, live_datagrams: 5, signals: 9, stop: StopAt::External(700), cb_micros: 0, inflight: false, pre_session: false, live_session_stop: false, flood: false, timer_churn: false, pre_flood: false, long_cb_ms: 130, numbered_stream: false, with_empties: false, pre_tcp_stream: false });
+        scs.push(Sc { mode, pre_datagrams: 3, live_datagrams: 5, signals: 9, stop: StopAt::External(700), cb_micros: 100, inflight: false, pre_session: false, live_session_stop: false, flood: true, timer_churn: false, pre_flood: false, long_cb_ms: 130, numbered_stream: false, with_empties: false, pre_tcp_stream: false });
+        scs.push(Sc { mode, pre_datagrams: 0, live_datagrams: 0, signals: 2, stop: StopAt::External(500), cb_micros: 0, inflight: false, pre_session: false, live_session_stop: false, flood: false, timer_churn: false, pre_flood: false, long_cb_ms: 0, numbered_stream: true, with_empties: false, pre_tcp_stream: false });
+        scs.push(Sc { mode, pre_datagrams: 4, live_datagrams: 4, signals: 2, stop: StopAt::External(400), cb_micros: 0, inflight: false, pre_session: false, live_session_stop: false, flood: false, timer_churn: false, pre_flood: false, long_cb_ms: 0, numbered_stream: false, with_empties: true, pre_tcp_stream: false });
+        scs.push(Sc { mode, pre_datagrams: 3, live_datagrams: 6, signals: 2, stop: StopAt::External(1200), cb_micros: 0, inflight: false, pre_session: false, live_session_stop: false, flood: false, timer_churn: false, pre_flood: false, long_cb_ms: 0, numbered_stream: false, with_empties: false, pre_tcp_stream: true });
         // a long start-up cache, a callback slow enough for the live traffic to arrive during the replay
-        scs.push(Sc { mode, pre_datagrams: 300, live_datagrams: 30, signals: 4, stop: StopAt::NetEvent(329), cb_micros: 150, inflight: false, pre_session: false, live_session_stop: false, flood: false, timer_churn: false, pre_flood: false, long_cb_ms: 0 });
-        scs.push(Sc { mode, pre_datagrams: 20, live_datagrams: 40, signals: 20, stop: StopAt::NetEvent(45), cb_micros: 100, inflight: false, pre_session: false, live_session_stop: false, flood: false, timer_churn: false, pre_flood: false, long_cb_ms: 0 });
-        scs.push(Sc { mode, pre_datagrams: 6, live_datagrams: 30, signals: 30, stop: StopAt::External(40), cb_micros: 500, inflight: false, pre_session: false, live_session_stop: false, flood: false, timer_churn: false, pre_flood: false, long_cb_ms: 0 });
-        scs.push(Sc { mode, pre_datagrams: 0, live_datagrams: 30, signals: 9, stop: StopAt::Signal(8), cb_micros: 2000, inflight: false, pre_session: false, live_session_stop: false, flood: false, timer_churn: false, pre_flood: false, long_cb_ms: 0 });
+        scs.push(Sc { mode, pre_datagrams: 300, live_datagrams: 30, signals: 4, stop: StopAt::NetEvent(329), cb_micros: 150, inflight: false, pre_session: false, live_session_stop: false, flood: false, timer_churn: false, pre_flood: false, long_cb_ms: 0, numbered_stream: false, with_empties: false, pre_tcp_stream: false });
+        scs.push(Sc { mode, pre_datagrams: 20, live_datagrams: 40, signals: 20, stop: StopAt::NetEvent(45), cb_micros: 100, inflight: false, pre_session: false, live_session_stop: false, flood: false, timer_churn: false, pre_flood: false, long_cb_ms: 0, numbered_stream: false, with_empties: false, pre_tcp_stream: false });
+        scs.push(Sc { mode, pre_datagrams: 6, live_datagrams: 30, signals: 30, stop: StopAt::External(40), cb_micros: 500, inflight: false, pre_session: false, live_session_stop: false, flood: false, timer_churn: false, pre_flood: false, long_cb_ms: 0, numbered_stream: false, with_empties: false, pre_tcp_stream: false });
+        scs.push(Sc { mode, pre_datagrams: 0, live_datagrams: 30, signals: 9, stop: StopAt::Signal(8), cb_micros: 2000, inflight: false, pre_session: false, live_session_stop: false, flood: false, timer_churn: false, pre_flood: false, long_cb_ms: 0, numbered_stream: false, with_empties: false, pre_tcp_stream: false });
         for _ in 0..(if a.thorough { 20 } else { 2 }) {
             scs.push(Sc { mode, pre_datagrams: r.below(12) as usize, live_datagrams: r.below(30) as usize, signals: r.below(15) as usize,
-                stop: if r.chance(1, 2) { StopAt::NetEvent(r.below(20) as usize) } else { StopAt::Signal(r.below(10) as usize) }, cb_micros: *r.pick(&[0u64, 100, 1000]), inflight: r.chance(1, 2), pre_session: r.chance(1, 3), live_session_stop: false, flood: r.chance(1, 4), timer_churn: r.chance(1, 4), pre_flood: r.chance(1, 5), long_cb_ms: 0 });
+                stop: if r.chance(1, 2) { StopAt::NetEvent(r.below(20) as usize) } else { StopAt::Signal(r.below(10) as usize) }, cb_micros: *r.pick(&[0u64, 100, 1000]), inflight: r.chance(1, 2), pre_session: r.chance(1, 3), live_session_stop: false, flood: r.chance(1, 4), timer_churn: r.chance(1, 4), pre_flood: r.chance(1, 5), long_cb_ms: 0, numbered_stream: false, with_empties: false, pre_tcp_stream: false });
+        }
+    }
+    // (deep search / thorough) a node that has been idle for 3.5 s is stopped from another thread
+    if a.thorough || a.rest.iter().any(|x| x == "idle") {
+        for mode in [Mode::ForEach, Mode::ForEachAsync, Mode::Enqueue] {
+            scs.push(Sc { mode, pre_datagrams: 0, live_datagrams: 2, signals: 1, stop: StopAt::External(3500), cb_micros: 0, inflight: false, pre_session: false, live_session_stop: false, flood: false, timer_churn: false, pre_flood: false, long_cb_ms: 0, numbered_stream: false, with_empties: false, pre_tcp_stream: false });
         }
     }
     // scenarios share the process-wide hook trace: one at a time
